@@ -513,6 +513,7 @@ struct EmitJob {
 
 pub fn replay(a: &Args) {
     let input = std::fs::read_to_string(a.req("in")).expect("read behaviours");
+    let maxdiv = a.num("maxdiv", 4);
     let _ = TRACE.set(Arc::new(Trace::create(&a.req("out"))));
     install_tracer(false);
     let mut nbeh = 0u64;
@@ -525,7 +526,7 @@ pub fn replay(a: &Args) {
         if line.trim().is_empty() {
             continue;
         }
-        if ndiv >= 3 {
+        if ndiv >= maxdiv {
             skipped += 1;
             continue;
         }
